@@ -117,6 +117,12 @@ class ArrList:
         return len(self.arrs)
 
 
+class SetV:
+    """python set of hashable values: characteristic array"""
+    def __init__(self, arr):
+        self.arr = arr
+
+
 class Fork(Exception):
     """raised during expression evaluation to split the current statement on a condition"""
     def __init__(self, key, cond):
@@ -400,6 +406,12 @@ class Exec:
             if isinstance(b, DictV):
                 r = Select(b.dom, self.box(a))
                 return Not(r) if op is ast.NotIn else r
+            if isinstance(b, SetV):
+                h = getattr(self, 'set_key_hook', None)
+                if h is not None:
+                    h(self, a, st, node)
+                r = Select(b.arr, self.box(a))
+                return Not(r) if op is ast.NotIn else r
             h = getattr(self, 'contains_hook', None)
             if h is not None:
                 r = h(self, a, b, st)
@@ -589,6 +601,8 @@ class Exec:
                 r = h(self, e, st)
                 if r is not NotImplemented:
                     return r
+            if f.id == 'set' and not e.args and f.id not in st.env:
+                return SetV(z3.K(Val, BoolVal(False)))
             if f.id == 'len' and len(e.args) == 1 and f.id not in st.env:
                 v = self.ev(e.args[0], st)
                 if isinstance(v, z3.SeqRef):
@@ -613,6 +627,8 @@ class Exec:
                 raise OutOfSubset(f'len of {v!r}')
             if f.id in st.env:
                 fv = st.env[f.id]
+                if isinstance(fv, Opaque) and fv.tag == 'localfn':
+                    return self.call_local(e, fv.node, st)
                 h = self.call_hooks.get('*value')
                 if h is not None:
                     r = h(self, e, fv, st)
@@ -625,6 +641,17 @@ class Exec:
                 return self.list_method(e, f.value.id, f.attr, st)
             if isinstance(f.value, ast.Name) and isinstance(st.env.get(f.value.id), ArrList) and f.attr in ('append', 'pop'):
                 return self.arrlist_method(e, f.value.id, f.attr, st)
+            if isinstance(f.value, ast.Name) and isinstance(st.env.get(f.value.id), SetV) and f.attr in ('add', 'discard', 'remove') and len(e.args) == 1:
+                sv = st.env[f.value.id]
+                raw = self.ev(e.args[0], st)
+                h = getattr(self, 'set_key_hook', None)
+                if h is not None:
+                    h(self, raw, st, e)
+                x = self.box(raw)
+                if f.attr == 'remove':
+                    self.safety(st, 'set-remove-present', e, Select(sv.arr, x))
+                st.env[f.value.id] = SetV(Store(sv.arr, x, BoolVal(f.attr == 'add')))
+                return NONE
             if isinstance(f.value, ast.Name) and isinstance(st.env.get(f.value.id), DictV) and f.attr == 'clear' and not e.args:
                 d = st.env[f.value.id]
                 st.env[f.value.id] = DictV(z3.K(Val, BoolVal(False)), d.map)
@@ -691,6 +718,17 @@ class Exec:
             raise OutOfSubset('yield')
         v = None if e.value is None else self.ev(e.value, st)
         return self.yield_hook(self, e, v, st)
+
+    def ev_GeneratorExp(self, e, st):
+        h = getattr(self, 'comp_hook', None)
+        if h is not None:
+            r = h(self, e, st)
+            if r is not NotImplemented:
+                return r
+        raise OutOfSubset(f'comprehension {ast.unparse(e)[:70]}')
+
+    ev_ListComp = ev_GeneratorExp
+    ev_DictComp = ev_GeneratorExp
 
     def ev_Lambda(self, e, st):
         h = getattr(self, 'lambda_hook', None)
@@ -915,6 +953,8 @@ class Exec:
             return DictV(self.fv(name + '_dom', v.dom.sort()), self.fv(name + '_map', v.map.sort()))
         if isinstance(v, ArrList):
             return ArrList([self.fv(f'{name}_a{i}', a.sort()) for i, a in enumerate(v.arrs)], self.fv(name + '_n', I))
+        if isinstance(v, SetV):
+            return SetV(self.fv(name + '_set', v.arr.sort()))
         if isinstance(v, Opaque) and hasattr(v, 'havoc'):
             return v.havoc(self, name)
         raise OutOfSubset(f'cannot havoc {name} = {v!r}')
@@ -1021,10 +1061,31 @@ class Exec:
 
     def st_FunctionDef(self, s, st):
         h = getattr(self, 'def_hook', None)
-        if h is None:
-            raise OutOfSubset('nested def')
-        h(self, s, st)
+        if h is not None:
+            h(self, s, st)
+        else:
+            # local helper: inlined at its call sites (straight-line bodies only)
+            st.env[s.name] = Opaque('localfn', node=s)
         return [('fall', st)]
+
+    def call_local(self, e, fn, st):
+        params = [a.arg for a in fn.args.args]
+        if len(params) != len(e.args) or e.keywords or fn.args.vararg or fn.args.kwarg or fn.args.defaults:
+            raise OutOfSubset('local helper call shape')
+        saved = {p: st.env.get(p) for p in params}
+        for p_, a in zip(params, e.args):
+            st.env[p_] = self.ev(a, st)
+        res = self.block(fn.body, st)
+        if len(res) != 1 or res[0][0] not in ('fall', 'return') or res[0][1] is not st:
+            raise OutOfSubset('local helper with branching body')
+        ret = st.ret if res[0][0] == 'return' else NONE
+        st.ret = None
+        for p_, v in saved.items():
+            if v is None:
+                st.env.pop(p_, None)
+            else:
+                st.env[p_] = v
+        return ret
 
     def st_Try(self, s, st):
         h = getattr(self, 'try_hook', None)
